@@ -47,6 +47,8 @@ def base_model(variant='plain'):
     else:
         e0 = EdgeSpec('n0/o1/x', 'n1/o1/u', fp())
     edges = [e0, EdgeSpec('m0/li/x', 'n0/o1/u', fp()), EdgeSpec('n1/o1/x', 'm0/li/u', fp())]
+    if variant == 'fanin':
+        edges.append(EdgeSpec('n0/o1/x', 'm0/li/u', fp()))       # m0.u is fed by two nodes of one type
     if variant == 'parallel':
         for _ in range(3):
             fp()         # keep the weights out of an arithmetic progression (distinct sums)
@@ -66,6 +68,9 @@ SCENARIOS = {
     # sweep over an edge delay that is realised as an ODE chain (dde_approx=2): rates 2/d that round to one integer
     'edge-delay': dict(map={'d': dict(vars=['delay'], edges=[('n0/o1/x', 'n1/o1/u')])}, variant='edge-delay',
                        values={'d': [F(1), F(11, 10), F(5, 4), F(9, 10)]}, run_kw=dict(dde_approx=2)),
+    # a target fed by two nodes of one type; with >= 5 rows the merged edge group is sparse (index-based edge code)
+    'fan-in': dict(map={'k': dict(vars=['o1/k'], nodes=['n0']), 'w': dict(vars=['weight'], edges=[('n1/o1/x', 'm0/li/u')])},
+                   variant='fanin', rows=(5, 6)),
     # two parallel edges n0 -> n1; the sweep addresses the SECOND one by its index
     'parallel-edge-index': dict(map={'w': dict(vars=['weight'], edges=[('n0/o1/x', 'n1/o1/u', 1)])}, variant='parallel'),
     # sweep over a plain (ring-buffer) delay with a fixed step of 1/4: 1 step (neglected by a separate run), 3 and 5 steps
@@ -285,7 +290,7 @@ def run(tier='quick', seed=0, only=None, verbose=False):
                      'code path as an explicit grid'])
     jobs = []
     for sc in SCENARIOS:
-        for rows in ((2, 3) if tier == 'quick' else (2, 3, 4, 5)):
+        for rows in (SCENARIOS[sc].get('rows') or ((2, 3) if tier == 'quick' else (2, 3, 4, 5))):
             if sc in ('edge-delay', 'edge-delay-steps') and rows > 4:
                 continue
             for vec in (True, False):
